@@ -352,6 +352,8 @@ func runWorker(id, tier string, i, n int, out string) int {
 			c.initRaceLog()
 			if ck.RaceRun != nil {
 				ck.RaceRun(c)
+			} else if rr, ok := raceRuns[id]; ok {
+				rr(c)
 			}
 		} else {
 			ck.Run(c)
@@ -490,7 +492,7 @@ func runParent(id, tier string) int {
 			jobs = append(jobs, job{self, "worker", i, fmt.Sprintf("%s/w%d.json", tmp, i)})
 		}
 	}
-	if ck.RaceRun != nil {
+	if _, ok := raceRuns[id]; ck.RaceRun != nil || ok {
 		if raceBin == "" {
 			fmt.Fprintln(os.Stderr, "HARNESS-ERROR: the race tier of this check needs VERIF_RACE_BIN (run through bin/check)")
 			return 2
@@ -760,8 +762,13 @@ func runReplay(path string) int {
 	}
 	c := &Ctx{ID: rf.Property, Tier: rf.Tier, NWorkers: 1, Res: newResult(), vmap: map[string]*Violation{}}
 	c.Deadline = time.Now().Add(10 * time.Minute)
-	c1 := ck.Replay(c, rf.Case)
-	c2 := ck.Replay(c, rf.Case)
+	replay := ck.Replay
+	var sc SchedCase
+	if f, ok := schedReplays[rf.Property]; ok && json.Unmarshal(rf.Case, &sc) == nil && sc.Scenario != "" {
+		replay = func(c *Ctx, raw json.RawMessage) string { return f(sc) }
+	}
+	c1 := replay(c, rf.Case)
+	c2 := replay(c, rf.Case)
 	if c1 != c2 {
 		fmt.Printf("HARNESS-ERROR: replay is not deterministic (%q vs %q)\n", c1, c2)
 		return 2
